@@ -587,6 +587,7 @@ class CaseRun:
                     aborts=(pop.get("aborts") or {}).get(str(r), []),
                     trace_nx=pop.get("trace_nx", False),
                     audit=audit,
+                    notrace=pop.get("notrace", False),
                 )
             else:
                 aborts = []
@@ -616,6 +617,7 @@ class CaseRun:
                     aborts=aborts,
                     trace_nx=pop.get("trace_nx", False),
                     audit=audit,
+                    notrace=pop.get("notrace", False),
                 )
 
             def make_body(c: str, script: list) -> Callable[[Sched, str], None]:
